@@ -74,6 +74,10 @@ def loop_program(ctxs, style, n, samples):
     elif style == "variadic":
         body = begin(head, if_(prim("=", V(i), I(n)), V(acc), wrap(call(loop))))
         defs = [(loop, lam([i, acc], "lrest", body))]
+    elif style == "case-lambda":     # "optional arities": the callee dispatches on the argument count, every clause body is a tail context
+        body = begin(head, if_(prim("=", V(i), I(n)), V(acc), wrap(call(loop))))
+        defs = [(loop, cg.case_lambda([([i], None, app(V(loop), [V(i), I(0)])), ([i, acc], None, body), ([i, acc], "lrest", V(acc))]))]
+        return letrec([d[0] for d in defs], [d[1] for d in defs], begin(emit(app(V(loop), [I(0)])), emit(S("end"))))
     elif style == "delay-force":     # R7RS 4.2.5: an iterative lazy algorithm - forcing a chain of delay-force steps must not grow the stack
         body = begin(head, if_(prim("=", V(i), I(n)), cg.delay(V(acc)), cg.delay_force(wrap(call(loop)))))
         defs = [(loop, lam([i, acc], None, body))]
@@ -97,7 +101,7 @@ def run():
         else:
             rng.shuffle(combos)
             combos = [[a] for a in names] + combos[:110] + [[rng.choice(names) for _ in range(3)] for _ in range(40)]
-        styles = ["self", "mutual", "variadic", "apply", "delay-force"]
+        styles = ["self", "mutual", "variadic", "apply", "delay-force", "case-lambda"]
         bigN = 10 ** 7 if chk.thorough else 10 ** 5
         small, big, kinds = [], [], {}
         pid = 0
@@ -186,7 +190,7 @@ def run():
                 chk.report("c05:deep:%s" % ev.get("outcome"), "deep recursion event rejected by Stack.tla: %s" % ev, "deep_rejected.json", {"event": ev, "all": lines})
         chk.cov["evaluations"] = len(small) + len(depths)
         chk.cov["distinct_nontrivial"] = len({k for k in kinds.values()})
-        chk.cov["rule"] = "a case = a composition of <= 3 R7RS tail contexts x call style (self, mutual, variadic callee, apply), or a non-tail loop, or one recursion depth"
+        chk.cov["rule"] = "a case = a composition of <= 3 R7RS tail contexts x call style (self, mutual, variadic callee, apply, delay-force, case-lambda callee), or a non-tail loop, or one recursion depth"
         chk.cov["exhaustive"] = False
         chk.sample({"contexts": kinds[small[20][0]], "scheme": small[20][1].scm[:600], "long_run_stack_samples": extra[small[20][0]]["big"]})
         if len(ok) < len(small) * 0.5 and not chk.violations:
